@@ -177,7 +177,7 @@ func ruleSeq(p *Program, r *Result) {
 			}
 			res := f.Signature.Results()
 			if res.Len() == 2 && typeIs(res.At(0).Type(), modPath, "Handler") && isErrorType(res.At(1).Type()) {
-				ruleSeqLookup(p, r, f)
+				ruleSeqLookup(p, r, p.view(f))
 			}
 		}
 	}
